@@ -658,6 +658,7 @@ func extractMeta() string {
 	b.WriteString(genHeader + "namespace Sqlc.Gen\n")
 	b.WriteString("def cmdConstants : List String := " + lstrs(cmds) + "\n")
 	b.WriteString("def cmdAccepted : List String := " + lstrs(accepted) + "\n")
+	b.WriteString("def cmdAcceptedB : List (List UInt8) := " + lbytess(accepted) + "\n")
 	b.WriteString("def namePrefixes : List String := " + lstrs(prefixes) + "\n")
 	b.WriteString("/-- (engine, dash, hash, slashStar) from each parser's CommentSyntax() -/\n")
 	b.WriteString("def commentSyntax : List (String × Bool × Bool × Bool) := [")
